@@ -21,7 +21,7 @@ def sig_of(ev):
     return "C12:trace-rejected"
 
 
-def run(ctx):
+def _run_main(ctx):
     thorough = ctx.tier == "thorough"
     ctx.rule = ("scenario = interactive dialogue (1-3 events, visible/hidden, with/without expected response, prompt-looking noise before a response, early completion), plain command (eager or not) or "
                 "privilege escalation with a secret against a device that asks / grants / refuses / rejects; every client write is a validated trace event; distinct by scenario id")
@@ -54,3 +54,19 @@ def run(ctx):
         ctx.sample({"trace_prefix": [json.loads(x) for x in lines[:6]]})
     validate_traces(ctx, "PacingTrace", lines, "C12:trace-rejected", "recorded dialogue", dfs=False, maxrej=8, sigfn=sig_of)
     ctx.notes["write_events"] = sum(1 for x in lines if '"ev":"write"' in x)
+
+
+OPOPT_FIELDS = {"channel.CompletePatterns", "channel.InterimPromptPatterns"}   # the operation options this property relies on (OpOptions.tla; every other option is noise in any position)
+
+
+def run(ctx):
+    import json as _json
+    import opopts
+    if ctx.replay:
+        rp = _json.load(open(ctx.replay))["scenario"]
+        if rp.get("kind") == "opopts":
+            opopts.replay(ctx, "C12", OPOPT_FIELDS, rp)
+            return
+    _run_main(ctx)
+    if not ctx.replay:
+        opopts.stage(ctx, "C12", OPOPT_FIELDS, ctx.tier == "thorough")
